@@ -543,3 +543,20 @@ func finish(r *Run, ps *propSpec, verifDir string, start time.Time, seed int, ex
 	}
 	return exit
 }
+
+// importRules runs another property's rule set on a scratch Run and copies the obligations of the
+// rules named in mapping into r under new rule ids (a property whose behaviour depends on those
+// clauses includes them as its own necessary conditions).
+func importRules(r *Run, from func(*Run), mapping map[string]string) {
+	sub := &Run{W: r.W, Prop: r.Prop, Tier: r.Tier}
+	from(sub)
+	for _, o := range sub.Obs {
+		nr, ok := mapping[o.Rule]
+		if !ok {
+			continue
+		}
+		construct := strings.TrimPrefix(o.Key, fmt.Sprintf("%s/%s@", r.Prop, o.Rule))
+		no := r.add(nr, construct, o.Status, token.NoPos, "%s", o.Detail)
+		no.Pos = o.Pos
+	}
+}
